@@ -83,3 +83,4 @@ Print Assumptions C07_cv_variance.
 Print Assumptions C07_cv_fallback_is_raw.
 Print Assumptions C07_cv_bstar_solves_normal_equations.
 Print Assumptions C07_cv_variance_with_code_b.
+Print Assumptions C07_error_vector_before_repair.
